@@ -1543,6 +1543,29 @@ static void families(const std::string &prop, const std::string &tier)
               for (auto i : idx)
                 s.la.push_back(pool[i]);
               g_specs.push_back(s); });
+    // (H) half-integer constants: ALL 3-subsets of {x, y, x+y, x-y} x {<=, >=} x {1/2, 3/2}: values and bounds whose
+    // denominators share a factor, so that updates and pivots add and subtract non-coprime fractions
+    {
+      std::vector<LAtom> hp;
+      for (auto &e : exprs)
+      {
+        if (e.size() != 2 || (e[0] != Q(0) && e[0] != Q(1)) || (e[1] != Q(0) && e[1] != Q(1) && e[1] != Q(-1)))
+          continue;
+        for (int op : {0, 2})
+          for (auto &k : {Q(1, 2), Q(3, 2)})
+            hp.push_back(LA(e, op, k));
+      }
+      subsets(hp.size(), 3, [&](const std::vector<size_t> &idx)
+              {
+                if (idx.size() != 3)
+                  return;
+                Spec s;
+                s.nlra = 2;
+                for (auto i : idx)
+                  s.la.push_back(hp[i]);
+                s.depth = th ? 4 : 3;
+                g_specs.push_back(s); });
+    }
     // (F) fan-out: 1 boolean + 4 atoms and two binary clauses with the same trigger literal, so that one assignment
     // queues several theory literals (a conflict raised by propagate() arrives while others are pending)
     {
